@@ -353,7 +353,9 @@ def _raster_pass(ctx, case, tmp, tree, pid, tf, res_arg, prefix):
         if p >= 0:
             d = np.minimum(d, sd_round_cone(P, X[p], X[c], R[p], R[c]))
     lit = img.transpose(1, 2, 0).ravel() > 0
-    near = np.abs(d) < 1e-3 * (1 + np.abs(X).max() / 100)
+    # sdflit evaluates distances in float32: allow 1e-3 plus a few float32 ulps of the largest
+    # coordinate (0.001 near the origin, ~0.03 at |x| = 3e4)
+    near = np.abs(d) < 1e-3 + 8 * 1.2e-7 * float(np.abs(X).max())
     bad = ((d < 0) != lit) & ~near
     ctx.count("voxels_compared", int((~near).sum()))
     ctx.count("voxels_near_surface_skipped", int(near.sum()))
@@ -452,6 +454,12 @@ def run(ctx):
                 origin = (rng.normal(0, 1, 3) * 60).round(2).tolist()
             elif far < 0.7:
                 origin = (rng.choice([-1, 1], 3) * rng.uniform(300, 1200, 3)).round(2).tolist()
+            elif far < 0.8:
+                # whole-brain coordinates, finely sampled (exactly representable: multiples of 1/8
+                # around 2^14): segments are short compared with the coordinates, not degenerate
+                origin = (rng.choice([-1, 1], 3) * rng.choice([16384.0, 24576.0, 8192.0], 3)
+                          ).tolist()
+                res = [float(rng.choice([0.125, 0.25]))] * 3
             rc = {"shape": str(rng.choice(["chain", "binary", "recursive", "star", "neuron",
                                            "pair"])),
                   "n": int(rng.integers(2, 31)), "seed": int(rng.integers(0, 2**31 - 1))}
